@@ -4,7 +4,8 @@
    ---- once ----
    Events   [1 c]     Resolve in a new actor (c=1: with an already cancelled context)
             [3 i ch]  let actor i run from its gate (caller at gate 1: critical section, then Await;
-                      goroutine at gate 2: clear section; at gate 3: SetResult).  ch is the select choice the
+                      goroutine at gate 2: clear section; at gate 3: up to the swap inside SetResult; at site 0
+                      (inside SetResult after the swap): publish the result and close done).  ch is the select choice the
                       implementation made when both Await cases were ready (1 = ctx.Done), read off the result
             [4 i]     cancel the context of caller i
             [5 i k]   the user callback running on goroutine actor i returns: k=0 value i+1, k=1 error i+1, k=2 context.Canceled
@@ -12,6 +13,8 @@
             1 0 caller parked at gate 1     2 0 caller blocked in Await    3 v returned (v,nil)   4 0 returned Canceled
             5 e returned error e            6 c goroutine inside the user callback (c=1: its ctx was cancelled on entry)
             7 0 goroutine at gate 2         8 0 goroutine at gate 3         9 0 goroutine finished
+            10 0 goroutine inside SetResult between the swap of isDone and the publication
+            11 0 the Resolve call panicked (the model never produces it; clause 8)
    ---- memo ----
    Events   [1]       call the memoized function in a new actor      [2 i k]  fn (running on actor i) returns: k=0 value i+1, k=1 error i+1
             [3 n w]   n new actors call it at the same moment (no schedule point inside memo: they race for real); w = which of
@@ -35,7 +38,7 @@ Definition code (s : st) (h : hact) : list N :=
   | HG g => match nth_error (gs s) g with
             | Some y => match gp y with
                         | GInCb ec => [6; if ec then 1 else 0]
-                        | GClear _ => [7; 0] | GSet _ => [8; 0] | GDone _ => [9; 0]
+                        | GClear _ => [7; 0] | GSet _ => [8; 0] | GPub _ => [10; 0] | GDone _ => [9; 0]
                         end
             | None => [0; 0]
             end
@@ -88,8 +91,8 @@ Definition hstep (h : hst) (e : list N) : option (hst * list N) :=
       match nth_error (gs s) g with
       | Some y =>
         match gp y with
-        | GClear _ => ret {| ms := step s (GStep g); hmap := hmap h |}
-        | GSet _ => ret {| ms := settle (step s (GStep g)); hmap := hmap h |}
+        | GClear _ | GSet _ => ret {| ms := step s (GStep g); hmap := hmap h |}
+        | GPub _ => ret {| ms := settle (step s (GStep g)); hmap := hmap h |}
         | _ => None
         end
       | None => None
@@ -151,6 +154,7 @@ Definition set_out (k : N) (a : mact) : mact :=
   {| mcaller := mcaller a; mborn := mborn a; mcanc := mcanc a; mretd := mretd a; mout := k; mpub := mpub a |}.
 
 Definition is_ret_code (c : N) : bool := (N.eqb c 3 || N.eqb c 4 || N.eqb c 5)%N.
+(* 11: the call panicked (never produced by the model) *)
 Definition is_some {A} (o : option A) : bool := match o with Some _ => true | None => false end.
 
 Definition mon_once (m : monst) (e o : list N) : monst * list (nat * nat) :=
@@ -201,7 +205,9 @@ Definition mon_once (m : monst) (e o : list N) : monst * list (nat * nat) :=
   (* clause 5: nobody stays blocked with a cancelled context, or while no callback invocation is in progress *)
   let blocked := existsb (fun z : mact * (N * N) => N.eqb (fst (snd z)) 2) zs in
   let canc_blocked := existsb (fun z : mact * (N * N) => mcaller (fst z) && mcanc (fst z) && N.eqb (fst (snd z)) 2) zs in
-  let active := existsb (fun z : mact * (N * N) => N.eqb (fst (snd z)) 6 || N.eqb (fst (snd z)) 7 || N.eqb (fst (snd z)) 8) zs in
+  let active := existsb (fun z : mact * (N * N) => N.eqb (fst (snd z)) 6 || N.eqb (fst (snd z)) 7 || N.eqb (fst (snd z)) 8 || N.eqb (fst (snd z)) 10) zs in
+  (* clause 8: no call panics *)
+  let f8 := existsb (fun z : mact * (N * N) => N.eqb (fst (snd z)) 11) zs in
   let f5 := canc_blocked || (blocked && negb active) in
   (* 3. bookkeeping *)
   let err_returned := fun e : N => existsb (fun z : mact * (N * N) => N.eqb (fst (snd z)) 5 && N.eqb (snd (snd z)) e) zs in
@@ -222,7 +228,8 @@ Definition mon_once (m : monst) (e o : list N) : monst * list (nat * nat) :=
     (if f2 then [(16, 2)] else []) ++
     (if f3 then [(16, 3)] else []) ++
     (if f4 then [(16, 4)] else []) ++
-    (if f5 then [(16, 5)] else []) in
+    (if f5 then [(16, 5)] else []) ++
+    (if f8 then [(16, 8)] else []) in
   ({| mstepno := S i; macts := acts3; msucc := succ1 |}, fails).
 
 Definition run_check_once (cfg : list N) (evs obss : list (list N)) : list issue :=
@@ -299,8 +306,9 @@ Definition mon_memo (m : mmon) (e o : list N) : mmon * list (nat * nat) :=
                        | Some (c, v) => negb (N.eqb c (fst p) && N.eqb v (snd p))
                        | None => true
                        end) returned in
+  let f8 := existsb (fun p : N * N => N.eqb (fst p) 11) ps in
   ({| mm_prev := codes; mm_entries := entries; mm_ret := ret1 |},
-   (if f6 then [(16, 6)] else []) ++ (if f7 then [(16, 7)] else [])).
+   (if f6 then [(16, 6)] else []) ++ (if f7 then [(16, 7)] else []) ++ (if f8 then [(16, 8)] else [])).
 
 Definition run_check_memo (cfg : list N) (evs obss : list (list N)) : list issue :=
   run_check mhstep mon_memo minit mmonit evs obss.
